@@ -22,6 +22,8 @@ import (
 	"strings"
 	"sync"
 	"time"
+
+	"github.com/thomasjungblut/go-sstables/recordio"
 )
 
 var crashFlavour = "all"
@@ -564,7 +566,19 @@ func (ev *crashEval) evalSync(im *crashImage, probe *crashProbe) {
 		allowed := []string{want}
 		if im.Inflight >= 0 {
 			o := s.Ops[im.Inflight]
-			if o.mutation() && o.Key == k {
+			if o.Kind == "putmany" {
+				// any prefix of its calls may have been made
+				for i, in := range o.Inner {
+					if o.InKeys[in.Key] == k {
+						if in.Del {
+							allowed = append(allowed, "-")
+						} else {
+							allowed = append(allowed, o.Inner[i].Val)
+						}
+					}
+				}
+			}
+			if o.mutation() && o.Key == k && o.Kind != "putmany" {
 				switch {
 				case o.isPut() && o.Invalid:
 					continue
@@ -596,12 +610,26 @@ func (ev *crashEval) evalAsync(im *crashImage, probe *crashProbe) {
 		ev.violateAt(im, "C13", "open-fails:"+crashOpenFailClass(im.Abs, probe.Open), "re-opening the image failed: "+probe.Open, ev.caseStr(im, probe, ""))
 		return
 	}
-	var muts []*crashOp
+	// the sequence of mutations: one per ordinary op, one per call of a bulk op
+	type mut struct {
+		o     *crashOp
+		inner int // -1: the op itself
+	}
+	var muts []mut
 	lower := 0
+	addOp := func(o *crashOp) {
+		if o.Kind == "putmany" {
+			for i := range o.Inner {
+				muts = append(muts, mut{o, i})
+			}
+			return
+		}
+		muts = append(muts, mut{o, -1})
+	}
 	for i := 0; i < im.Acked; i++ {
 		o := s.Ops[i]
 		if o.ok() && o.mutation() {
-			muts = append(muts, o)
+			addOp(o)
 			if o.EIdx >= 0 && o.EIdx < im.LastWalClose {
 				lower = len(muts)
 			}
@@ -610,25 +638,41 @@ func (ev *crashEval) evalAsync(im *crashImage, probe *crashProbe) {
 	if im.Inflight >= 0 {
 		o := s.Ops[im.Inflight]
 		if o.mutation() && (o.Result == "" || o.ok()) {
-			muts = append(muts, o)
+			addOp(o)
 		}
 	}
+	// the number of keys that read differently from the reference is kept up to date mutation by mutation
 	st := crashRefState{m: map[string]string{}, wild: map[string]bool{}}
-	match := func() bool {
-		for _, k := range s.Keys {
-			if probe.Vals[k] != st.get(k) {
-				return false
-			}
+	inUniverse := map[string]bool{}
+	for _, k := range s.Keys {
+		inUniverse[k] = true
+	}
+	differs := map[string]bool{}
+	check := func(k string) {
+		if !inUniverse[k] {
+			return
 		}
-		return true
+		if probe.Vals[k] != st.get(k) {
+			differs[k] = true
+		} else {
+			delete(differs, k)
+		}
+	}
+	for _, k := range s.Keys {
+		check(k)
 	}
 	found := -1
 	short := -1
 	for p := 0; p <= len(muts); p++ {
 		if p > 0 {
-			st.applyOp(muts[p-1])
+			if m := muts[p-1]; m.inner >= 0 {
+				check(st.applyInner(m.o, m.inner))
+			} else {
+				st.applyOp(m.o)
+				check(m.o.Key)
+			}
 		}
-		if match() {
+		if len(differs) == 0 {
 			if p >= lower {
 				found = p
 			} else {
@@ -984,13 +1028,43 @@ func runCrash(res *Result, drv *Driver, seed uint64, n int, tier string, only in
 	case "all", "":
 		bigFlavours = []string{"async", "sync"}
 	}
-	for idx := 0; idx < n+len(bigFlavours); idx++ {
+	// session n+len(bigFlavours): the small-records session of the asynchronous log (crashGenSmallRecordsSession; third
+	// random stream): buffer writes that end inside record headers
+	smallRecords := 0
+	switch crashFlavour {
+	case "async", "all", "":
+		smallRecords = 1
+	}
+	// the sessions behind those: bare logs written through direct-I/O writers (crashGenDirectWalSession; fourth random
+	// stream), skipped where the file system has no O_DIRECT
+	directWal := 0
+	switch crashFlavour {
+	case "wal":
+		directWal = 2
+	case "all", "":
+		directWal = 1
+	}
+	if directWal > 0 {
+		if ok, err := recordio.IsDirectIOAvailable(); err != nil || !ok {
+			res.Stat("direct-io-wal-sessions:skipped-direct-io-not-available-on-this-file-system")
+			directWal = 0
+		}
+	}
+	for idx := 0; idx < n+len(bigFlavours)+smallRecords+directWal; idx++ {
 		if only >= 0 && idx != only {
 			continue
 		}
 		flavour := crashFlavourOf(idx, crashFlavour)
 		var s *crashSession
-		if idx >= n {
+		if idx >= n+len(bigFlavours)+smallRecords {
+			flavour = "wal"
+			s = crashGenDirectWalSession(seed, idx, tier)
+			res.Stat("direct-io-wal-session")
+		} else if idx >= n+len(bigFlavours) {
+			flavour = "async"
+			s = crashGenSmallRecordsSession(seed, idx, tier, flavour)
+			res.Stat("small-records-session")
+		} else if idx >= n {
 			flavour = bigFlavours[idx-n]
 			s = crashGenBigRecordSession(seed, idx, tier, flavour)
 			res.Stat("big-record-session")
@@ -1014,6 +1088,15 @@ func runCrash(res *Result, drv *Driver, seed uint64, n int, tier string, only in
 				res.Stat("op:invalid-call")
 			}
 			switch {
+			case o.Kind == "putmany":
+				res.StatN("putmany:calls", len(o.Inner))
+				for _, in := range o.Inner {
+					if in.Del {
+						res.Stat("putmany:call:delete")
+					} else {
+						res.Stat(fmt.Sprintf("putmany:call:put:value-bytes=%d", len(in.Val)/2))
+					}
+				}
 			case o.Len > 4*1024*1024:
 				res.Stat("value:>4MiB")
 			case o.Len > 1024*1024:
@@ -1107,7 +1190,7 @@ func runCrash(res *Result, drv *Driver, seed uint64, n int, tier string, only in
 		res.StatN("image-entries-checked", len(sel))
 		big := false
 		for _, o := range s.Ops {
-			big = big || strings.HasPrefix(o.ValTok, "g") && o.Len > 100000
+			big = big || strings.HasPrefix(o.ValTok, "g") && o.Len > 100000 || o.Kind == "putmany"
 		}
 		cache := &crashProbeCache{m: map[string]*crashProbe{}, noAbs: big || drv == nil}
 		var fss []*crashFS
@@ -1122,6 +1205,7 @@ func runCrash(res *Result, drv *Driver, seed uint64, n int, tier string, only in
 		res.StatN("images-probed", len(cache.m))
 		shapes := map[string]bool{}
 		bigPartial := map[string]bool{}
+		headerCut := map[string]bool{}
 		for _, im := range sel {
 			probe := cache.m[im.Hash]
 			// a log file that ends inside a record larger than the replayer's 4 MiB read buffer
@@ -1134,6 +1218,12 @@ func runCrash(res *Result, drv *Driver, seed uint64, n int, tier string, only in
 						res.Stat("image:big-record-partial:log-file=header+4MiB")
 					}
 				}
+			}
+			// a log file that ends inside a record header (asynchronous log: a buffer write ended there)
+			if at, ok := crashImageHeaderCut(im.FS, s.Bare); ok && !headerCut[im.Hash] {
+				headerCut[im.Hash] = true
+				res.Stat("image:log-file-ends-inside-record-header:distinct")
+				res.Stat(fmt.Sprintf("image:log-file-ends-inside-record-header:after-header-byte=%d", at))
 			}
 			shape := im.Abs.Shape()
 			if !shapes[shape] {
@@ -1156,7 +1246,36 @@ func runCrash(res *Result, drv *Driver, seed uint64, n int, tier string, only in
 			}
 		}
 
-		if idx >= n && len(bigPartial) == 0 {
+		if idx >= n+len(bigFlavours)+smallRecords {
+			// direct-I/O log: what the calls answered, and whether blocks reached the disk before the end
+			blocks := 0
+			for _, e := range run.Events {
+				if e.Kind == "write" && crashIsWalPath(e.Path, true) && len(e.Data) >= 4096 {
+					blocks++
+				}
+			}
+			res.StatN("direct-io-wal-session:block-writes", blocks)
+		} else if idx >= n+len(bigFlavours) {
+			// the buffer writes this session exists for: log files of 8 + k * 4 MiB bytes among the images
+			nb := 0
+			seenB := map[string]bool{}
+			for _, im := range sel {
+				if seenB[im.Hash] {
+					continue
+				}
+				seenB[im.Hash] = true
+				for _, p := range im.FS.paths() {
+					if nd := im.FS.nodes[p]; !nd.dir && crashIsWalPath(p, s.Bare) && len(nd.data) > 8 && (len(nd.data)-8)%(4*1024*1024) == 0 {
+						nb++
+					}
+				}
+			}
+			res.StatN("small-records-session:images-with-log-file-of-header+k*4MiB", nb)
+			if nb == 0 {
+				res.Stat("small-records-session:without-buffer-write-image")
+				fmt.Fprintf(os.Stderr, "crash: session %d (small records) produced no image right after a 4 MiB buffer write\n", idx)
+			}
+		} else if idx >= n && len(bigPartial) == 0 {
 			// the input class this session exists for was not produced (other buffer sizes in the library?)
 			res.Stat("big-record-session:without-partial-image")
 			fmt.Fprintf(os.Stderr, "crash: session %d (big record) produced no image with a partly written record > 4 MiB\n", idx)
@@ -1212,6 +1331,58 @@ func crashImageBigRecordPartial(fs *crashFS, bare bool) (declared uint64, have i
 		}
 	}
 	return 0, 0, false
+}
+
+// crashImageHeaderCut: some log file of the image ends inside a record header, 1 <= at < header length bytes into it
+func crashImageHeaderCut(fs *crashFS, bare bool) (at int, ok bool) {
+	for _, p := range fs.paths() {
+		n := fs.nodes[p]
+		if n.dir || !crashIsWalPath(p, bare) || len(n.data) < 8 {
+			continue
+		}
+		b := n.data
+		info := crashScanRio(b)
+		if !info.Torn {
+			continue
+		}
+		// walk to the start of the torn record
+		q := 8
+		compressed := binary.LittleEndian.Uint32(b[4:8]) != 0
+		for q < len(b) {
+			r := q
+			uv := func() (uint64, bool) {
+				v, k := binary.Uvarint(b[r:])
+				if k <= 0 {
+					return 0, false
+				}
+				r += k
+				return v, true
+			}
+			if _, o := uv(); !o || r >= len(b) {
+				return len(b) - q, true
+			}
+			isNil := b[r] == 1
+			r++
+			un, o1 := uv()
+			co, o2 := uv()
+			_, o3 := uv()
+			if !o1 || !o2 || !o3 {
+				return len(b) - q, true
+			}
+			payload := un
+			if compressed {
+				payload = co
+			}
+			if isNil {
+				payload = 0
+			}
+			if uint64(len(b)-r) < payload {
+				break // cut inside the payload (or right behind the header)
+			}
+			q = r + int(payload)
+		}
+	}
+	return 0, false
 }
 
 // crashTornRecordPayload walks a V4 recordio file image (no checksums checked) up to a record whose header is complete
